@@ -59,8 +59,9 @@ S13 = Struct("p"/S12, "q"/S12, "t"/Byte)
 S14 = Select(Int8ub, Int16ub, Int32ub)
 S15 = Struct("o"/Optional(Int16ub), "s"/S14, "r"/Optional(S0))
 S16 = Struct("k"/Byte, "d"/ProcessXor(this.k, Bytes(3)), "e"/ProcessRotateLeft(this.k, 2, Bytes(2)))
+S17 = Struct("n"/Byte, "d"/ProcessXor(b"\\x01\\x02\\x04", Bytes(this.n)), "e"/ProcessXor(b"\\x10\\x20", Prefixed(Byte, GreedyBytes)), "f"/ProcessRotateLeft(5, 3, Bytes(3)))
 '''
-POOL_NAMES = ['S%d' % i for i in range(17)]
+POOL_NAMES = ['S%d' % i for i in range(18)]
 
 
 def namespace():
